@@ -30,8 +30,9 @@ Proof.
   - apply HPL. apply IH.
 Qed.
 
-(* ---- the fragment: services, task calls with non-empty bodies, non-empty Parallel of calls;
-        no called task is named like the production task ---- *)
+(* ---- the fragment: services, task calls with non-empty bodies, non-empty Parallel of calls,
+        Conditions with a non-empty Passed block (the Failed block may be missing), While loops
+        with non-empty bodies; no called task is named like the production task ---- *)
 Fixpoint frag (s : xstmt) : bool :=
   match s with
   | XService _ _ _ => true
@@ -41,6 +42,7 @@ Fixpoint frag (s : xstmt) : bool :=
     match bs with [] => false | _ => forallb (fun b => match b with XCall _ _ _ _ => frag b | _ => false end) bs end
   | XCond _ p f =>
     match p with [] => false | _ => forallb frag p end && forallb frag f
+  | XWhile _ b => match b with [] => false | _ => forallb frag b end
   | _ => false
   end.
 Definition frag_block (ss : list xstmt) : bool :=
@@ -53,6 +55,7 @@ Fixpoint nplaces (s : xstmt) : nat :=
   | XCall _ _ _ body => list_sum (map nplaces body)
   | XParallel bs => S (list_sum (map nplaces bs))
   | XCond _ p f => 4 + list_sum (map nplaces p) + list_sum (map nplaces f)
+  | XWhile _ b => 4 + list_sum (map nplaces b)
   | _ => 0
   end.
 Fixpoint napis (s : xstmt) : nat :=
@@ -61,6 +64,7 @@ Fixpoint napis (s : xstmt) : nat :=
   | XCall _ _ _ body => S (list_sum (map napis body))
   | XParallel bs => list_sum (map napis bs)
   | XCond _ p f => list_sum (map napis p) + list_sum (map napis f)
+  | XWhile _ b => list_sum (map napis b)
   | _ => 0
   end.
 (* transitions of a block: one connection before every statement but the last *)
@@ -80,6 +84,7 @@ Fixpoint ntrans (s : xstmt) : nat :=
     | [] => 3 + ntrans_block ntrans p
     | _ :: _ => 4 + ntrans_block ntrans p + ntrans_block ntrans f
     end
+  | XWhile _ b => 3 + ntrans_block ntrans b
   | _ => 0
   end.
 Definition nplaces_l (l : list xstmt) : nat := list_sum (map nplaces l).
@@ -128,6 +133,7 @@ Fixpoint entries (s : xstmt) (p : pos) : list nat :=
     match body with [] => [] | s0 :: _ => entries s0 (first_pos body (body_pos p)) end
   | XParallel bs => cat_of entries bs (par_pos p)
   | XCond _ _ _ => [pp p + 2]
+  | XWhile _ _ => [pp p]
   | _ => []
   end.
 (* callbacks the component registers on the transition that enters it, in order *)
@@ -138,6 +144,7 @@ Fixpoint startcbs (s : xstmt) (p : pos) (ctx : nat) {struct s} : list cb :=
     CbTS (pa p) :: match body with [] => [] | s0 :: _ => startcbs s0 (first_pos body (body_pos p)) (pa p) end
   | XParallel bs => cat_of (fun b q => startcbs b q ctx) bs (par_pos p)
   | XCond e _ _ => [CbCond e (pp p) (pp p + 1) ctx]
+  | XWhile e _ => [CbWhile e (pp p + 1) (pp p + 2) ctx]
   | _ => []
   end.
 (* the place whose token says "this component is complete" (input of the transition after it) *)
@@ -147,6 +154,7 @@ Fixpoint xplace (s : xstmt) (p : pos) : nat :=
   | XCall _ _ _ body => last_of xplace 0 body (body_pos p)
   | XParallel _ => pp p
   | XCond _ _ _ => pp p + 3
+  | XWhile _ _ => pp p + 3
   | _ => 0
   end.
 (* the transitions whose firing completes the component (done_t of its last service / the sync /
@@ -161,6 +169,7 @@ Fixpoint exits (s : xstmt) (p : pos) : list nat :=
                    | [] => [pt p + 2; pt p + 1]
                    | _ :: _ => [pt p + 2; pt p + 3 + ntrans_block ntrans P]
                    end
+  | XWhile _ _ => [pt p + 1]
   | _ => []
   end.
 
@@ -178,12 +187,12 @@ Definition postN (s : NS) (j : nat) : list nat := tr_post (nth j (ns_trans s) tr
 Definition cbsN (s : NS) (j : nat) : list cb := nth j (ns_cbs s) [].
 
 (* the API records as created *)
-Definition svc_api (n : name) (at_ : site) (ins : list param) (ctx k : nat) : api :=
+Definition svc_api (il : bool) (n : name) (at_ : site) (ins : list param) (ctx k : nat) : api :=
   {| a_is_task := false; a_name := n; a_site := at_; a_uuid := IUuid k; a_ctx := Some ctx;
-     a_in_loop := false; a_params := ins; a_src := ins; a_has_call := false |}.
-Definition call_api (t : name) (at_ : site) (ins : list param) (ctx k : nat) : api :=
+     a_in_loop := il; a_params := ins; a_src := ins; a_has_call := false |}.
+Definition call_api (il : bool) (t : name) (at_ : site) (ins : list param) (ctx k : nat) : api :=
   {| a_is_task := true; a_name := t; a_site := at_; a_uuid := IUuid k; a_ctx := Some ctx;
-     a_in_loop := false; a_params := ins; a_src := ins; a_has_call := true |}.
+     a_in_loop := il; a_params := ins; a_src := ins; a_has_call := true |}.
 
 (* the same record up to its (run-time) identifier *)
 Definition api_like (a0 a : api) : Prop := a = with_uuid (a_uuid a) a0.
@@ -224,10 +233,10 @@ Section Wired.
     | XService n at_ ins =>
       preN N (pt p) = [pp p; pp p + 1] /\ postN N (pt p) = [pp p + 2] /\
       cbsN N (pt p) = CbSF (pa p) :: xcbs /\
-      nth_error (ns_apis N) (pa p) = Some (svc_api n at_ ins ctx (pa p)) /\
+      (exists il, nth_error (ns_apis N) (pa p) = Some (svc_api il n at_ ins ctx (pa p))) /\
       dict_get ident_eqb (IUuid (pa p)) (ns_place_dict N) = Some (pp p + 1)
     | XCall t at_ ins body =>
-      nth_error (ns_apis N) (pa p) = Some (call_api t at_ ins ctx (pa p)) /\
+      (exists il, nth_error (ns_apis N) (pa p) = Some (call_api il t at_ ins ctx (pa p))) /\
       wired_block wired N (pa p) (CbTF (pa p) :: xcbs) body (body_pos p)
     | XParallel bs =>
       preN N (pt p) = cat_of (fun b q => [xplace b q]) bs (par_pos p) /\
@@ -252,6 +261,15 @@ Section Wired.
         cbsN N (cond_sf P p) = xcbs /\
         wired_block wired N ctx [] P (cond_p p) /\ wired_block wired N ctx [] F (cond_f P p)
       end
+    | XWhile e B =>
+      (* places loop, then, else, done = pp .. pp+3; transitions condition-passed,
+         condition-failed, iteration = pt .. pt+2; the body follows (at [cond_p p]) *)
+      preN N (pt p) = [pp p; pp p + 1] /\ postN N (pt p) = entries_b B (cond_p p) /\
+      cbsN N (pt p) = startcbs_b B (cond_p p) ctx /\
+      preN N (pt p + 1) = [pp p; pp p + 2] /\ postN N (pt p + 1) = [pp p + 3] /\ cbsN N (pt p + 1) = xcbs /\
+      preN N (pt p + 2) = [xplace_b B (cond_p p)] /\ postN N (pt p + 2) = [pp p] /\
+      cbsN N (pt p + 2) = [CbWhile e (pp p + 1) (pp p + 2) ctx] /\
+      wired_block wired N ctx [] B (cond_p p)
     | _ => False
     end.
 End Wired.
@@ -273,6 +291,9 @@ Lemma napis_call : forall t a i body, napis (XCall t a i body) = S (napis_l body
 Lemma napis_par : forall bs, napis (XParallel bs) = napis_l bs. Proof. reflexivity. Qed.
 Lemma ntrans_cond : forall e P f0 F, ntrans (XCond e P (f0 :: F)) = 4 + ntrans_b P + ntrans_b (f0 :: F). Proof. reflexivity. Qed.
 Lemma ntrans_cond0 : forall e P, ntrans (XCond e P []) = 3 + ntrans_b P. Proof. reflexivity. Qed.
+Lemma ntrans_while : forall e B, ntrans (XWhile e B) = 3 + ntrans_b B. Proof. reflexivity. Qed.
+Lemma nplaces_while : forall e B, nplaces (XWhile e B) = 4 + nplaces_l B. Proof. reflexivity. Qed.
+Lemma napis_while : forall e B, napis (XWhile e B) = napis_l B. Proof. reflexivity. Qed.
 Lemma nplaces_cond : forall e P F, nplaces (XCond e P F) = 4 + nplaces_l P + nplaces_l F. Proof. reflexivity. Qed.
 Lemma napis_cond : forall e P F, napis (XCond e P F) = napis_l P + napis_l F. Proof. reflexivity. Qed.
 Lemma nplaces_l_cons : forall s r, nplaces_l (s :: r) = nplaces s + nplaces_l r. Proof. reflexivity. Qed.
@@ -331,6 +352,8 @@ Lemma frag_cond_P : forall e P F, frag (XCond e P F) = true -> frag_block P = tr
 Proof. intros e P F H. cbn [frag] in H. apply andb_prop in H. apply H. Qed.
 Lemma frag_cond_F : forall e P F, frag (XCond e P F) = true -> F <> [] -> frag_block F = true.
 Proof. intros e P F H Hne. apply (frag_cond_ne e P F Hne H). Qed.
+Lemma frag_while : forall e B, frag (XWhile e B) = true -> frag_block B = true.
+Proof. intros e B H. exact H. Qed.
 Lemma list_nil_dec : forall (l : list xstmt), {l = []} + {l <> []}.
 Proof. intros [|x r]; [left; reflexivity|right; discriminate]. Qed.
 
@@ -351,6 +374,9 @@ Proof.
     rewrite nplaces_cond, napis_cond.
     destruct p as [|s r]; [discriminate|]. apply frag_block_cons in HP. destruct HP as [Hs _].
     inversion IHp as [|? ? IHs _]; subst. specialize (IHs Hs). rewrite napis_l_cons. lia.
+  - apply frag_while in H. rewrite ntrans_while, nplaces_while, napis_while.
+    destruct b as [|s r]; [discriminate|]. apply frag_block_cons in H. destruct H as [Hs _].
+    inversion IH as [|? ? IHs _]; subst. specialize (IHs Hs). rewrite napis_l_cons. lia.
 Qed.
 
 (* ---- exit transitions and exit place lie inside the component ---- *)
@@ -379,6 +405,7 @@ Proof.
   - rewrite ntrans_par. cbn [exits]. split; [discriminate|]. intros e [<-|[]]. lia.
   - destruct f as [|f0 f]; [rewrite ntrans_cond0|rewrite ntrans_cond]; cbn [exits]; fold (ntrans_b p);
       (split; [discriminate|]); intros e0 [<-|[<-|[]]]; lia.
+  - rewrite ntrans_while. cbn [exits]. split; [discriminate|]. intros e0 [<-|[]]. lia.
 Qed.
 
 Lemma xplace_range_block : forall l,
@@ -402,6 +429,7 @@ Proof.
     apply (xplace_range_block body IH H (body_pos p0)).
   - rewrite nplaces_par. cbn [xplace]. lia.
   - rewrite nplaces_cond. cbn [xplace]. lia.
+  - rewrite nplaces_while. cbn [xplace]. lia.
 Qed.
 
 Lemma napis_l_one : forall s, napis_l [s] = napis s.
@@ -668,4 +696,38 @@ Proof.
       * rewrite D3, W12, hits_true; [reflexivity|]. rewrite Hes. right. left. reflexivity.
       * intros e He. rewrite Hes in He. cbn [cond_p pt]. destruct He as [<-|[<-|[]]]; lia.
       * intros e He. rewrite Hes in He. cbn [cond_f pt]. destruct He as [<-|[<-|[]]]; lia.
+  - (* while loop *)
+    apply frag_while in Hf. rewrite ntrans_while, napis_while in *.
+    assert (HagB : agree N N' (cond_p p0) (ntrans_b b) (napis_l b) es extra)
+      by (eapply agree_sub; [exact Hag|cbn [cond_p pt pa]; lia..]).
+    destruct (wired_agree_block N N' es extra b IH Hf (cond_p p0) ctx [] HagB) as [Bo _].
+    destruct Hag as (Ht & _).
+    destruct (Ht (pt p0) ltac:(lia)) as (A1 & A2 & A3).
+    destruct (Ht (pt p0 + 1) ltac:(lia)) as (B1 & B2 & B3).
+    destruct (Ht (pt p0 + 2) ltac:(lia)) as (C1 & C2 & C3).
+    assert (Hrest : forall xcbs',
+               hits es (pt p0) = false -> hits es (pt p0 + 2) = false ->
+               cbsN N' (pt p0 + 1) = xcbs' ->
+               outside_t es (pt (cond_p p0)) (pt (cond_p p0) + ntrans_b b) ->
+               wired N (XWhile e0 b) p0 ctx xcbs -> wired N' (XWhile e0 b) p0 ctx xcbs').
+    { intros xcbs' H0 H2 H1 HoB Hw. cbn [wired] in *.
+      destruct Hw as (W1 & W2 & W3 & W4 & W5 & W6 & W7 & W8 & W9 & WB).
+      rewrite H0, app_nil_r in A3. rewrite H2, app_nil_r in C3.
+      repeat (split; [congruence|]). apply Bo; assumption. }
+    split.
+    + intros Ho Hw. pose proof Hw as Hw0. cbn [wired] in Hw0.
+      destruct Hw0 as (_ & _ & _ & _ & _ & W6 & _).
+      apply Hrest; try exact Hw.
+      * apply hits_false. intros e He Heq. destruct (Ho e He); lia.
+      * apply hits_false. intros e He Heq. destruct (Ho e He); lia.
+      * rewrite B3, W6, hits_false, app_nil_r; [reflexivity|]. intros e He Heq. destruct (Ho e He); lia.
+      * intros e He. destruct (Ho e He); cbn [cond_p pt]; lia.
+    + intros Hes Hw. pose proof Hw as Hw0. cbn [wired] in Hw0.
+      destruct Hw0 as (_ & _ & _ & _ & _ & W6 & _).
+      cbn [exits] in Hes.
+      apply Hrest; try exact Hw.
+      * apply hits_false. intros e He Heq. rewrite Hes in He. destruct He as [<-|[]]; lia.
+      * apply hits_false. intros e He Heq. rewrite Hes in He. destruct He as [<-|[]]; lia.
+      * rewrite B3, W6, hits_true; [reflexivity|]. rewrite Hes. left. reflexivity.
+      * intros e He. rewrite Hes in He. cbn [cond_p pt]. destruct He as [<-|[]]; lia.
 Qed.
